@@ -18,5 +18,8 @@ CHECKS['C05'] = dict(category='exploration', design_ref='DESIGN.md §2 C05',
 CHECKS['C07'] = dict(category='exploration', design_ref='DESIGN.md §2 C07',
   text='Every constant class (all NaN classes and signs, zeros, infinities, subnormals, extremes, 9/17-digit floats, integer and LEB boundaries, random) is placed in function bodies, global initialisers and segment offsets, translated, compiled by gcc and clang at -O0/-O2 and read back; oracle = the constant itself.',
   note='Trusted: gcc 12 / clang 14 literal parsing (they are the compilers under quantification here).', technique='runtime read-back of compiled literals')
-for p in ['C06','C08','C09','C10','C11','C12','C13','C14','C15','C16','C17','C18','C19','C20']:
+CHECKS['C06'] = dict(category='exploration', design_ref='DESIGN.md §2 C06',
+  text='Runtime differential monitoring of generated module shapes (defined/imported memory, table, globals; overlapping active and passive data segments; element segments; start function that reports the state it finds): post-instantiation dump of memory, globals, table slots and start trace, then interleaved calls on two live instances sharing imported objects, compared with two V8 instances. The driver links against independently mangled symbols, so an unreachable export is a violation.',
+  note=V8 + ' Segments in bounds; offsets read only imported globals (initialisation order unobservable).', technique='post-instantiation state dump + two-instance history differential vs V8')
+for p in ['C08','C09','C10','C11','C12','C13','C14','C15','C16','C17','C18','C19','C20']:
     NA[p] = 'check not implemented yet in this revision (runtime-monitoring design exists in DESIGN.md; no claim is made until the monitor runs)'
